@@ -198,8 +198,10 @@ class Sim(object):
                 steps = [(i, self.variants(x2)) for i, x2 in self.moves(x)]
             for i, targets in steps:
                 q2 = dfa.trans[q].get(self.alpha[i][1])
-                if q2 is None:
-                    outcomes.setdefault((la, since), (st, i))
+                if q2 is None:          # the lexer dies on this character: the token is the last accept; the character is known lookahead
+                    for v in targets:
+                        known = since + ((i, v),) if (since is not None and v != ("ANY",)) else since
+                        outcomes.setdefault((la, known), (st, i))
                     continue
                 tag = dfa.tag[q2]
                 for v in targets:
@@ -215,7 +217,7 @@ class Sim(object):
                         queue.append(st2)
         return outcomes, parent
 
-    KEEP = 4
+    KEEP = 2
 
     def chain(self, parent, st):
         """[(char, node before reading it, state after)] from the token start to st."""
@@ -259,7 +261,7 @@ class Sim(object):
                     continue
                 tag, v = la
                 if since is not None:
-                    cut = len(path) - len(since)
+                    cut = len(path) - (len(since) - (1 if dead is not None and since and since[-1][0] == dead and len(since) > 0 and self._dead_in(since, dead, st) else 0))
                 else:
                     cut = max(i for i, (_, _, after) in enumerate(path) if dfa.tag[after[0]] == tag and after[1] == v) + 1
                 text = chars[:cut]
